@@ -74,7 +74,7 @@ func (vm *varyMatcher) varyHeadersMatchOne(entry *ResponseRef, reqHeader http.He
 		return false // Vary: "*" never matches
 	}
 	for field, value := range entry.VaryResolved {
-		reqValues := reqHeader[field]
+		reqValues := headerValues(reqHeader, field)
 		// an empty value is comparable and means "no variation"
 		reqValue := ""
 		if len(reqValues) > 0 {
